@@ -63,36 +63,41 @@ Record sock := mkSock {
   sq : nat;              (* len(send_queue) / len(sdreq) *)
   rbuf : nat; sbuf : nat;
   slots : nat;           (* send_window_slots *)
-  acks : nat             (* acks_recvd *)
+  acks : nat;            (* acks_recvd *)
+  srv : bool             (* ghost: accepted by a server's accept loop, i.e. referenced only by that
+                            loop and then by the one serve thread it starts (snep/handover server.py) *)
 }.
 
 Definition set_st (s : sock) (x : sstate) : sock :=
-  mkSock (kd s) x (bound s) (intab s) (tabled s) (rq s) (sq s) (rbuf s) (sbuf s) (slots s) (acks s).
+  mkSock (kd s) x (bound s) (intab s) (tabled s) (rq s) (sq s) (rbuf s) (sbuf s) (slots s) (acks s) (srv s).
 Definition set_rq (s : sock) (q : list item) : sock :=
-  mkSock (kd s) (st s) (bound s) (intab s) (tabled s) q (sq s) (rbuf s) (sbuf s) (slots s) (acks s).
+  mkSock (kd s) (st s) (bound s) (intab s) (tabled s) q (sq s) (rbuf s) (sbuf s) (slots s) (acks s) (srv s).
 Definition set_sq (s : sock) (n : nat) : sock :=
-  mkSock (kd s) (st s) (bound s) (intab s) (tabled s) (rq s) n (rbuf s) (sbuf s) (slots s) (acks s).
+  mkSock (kd s) (st s) (bound s) (intab s) (tabled s) (rq s) n (rbuf s) (sbuf s) (slots s) (acks s) (srv s).
 Definition set_rbuf (s : sock) (n : nat) : sock :=
-  mkSock (kd s) (st s) (bound s) (intab s) (tabled s) (rq s) (sq s) n (sbuf s) (slots s) (acks s).
+  mkSock (kd s) (st s) (bound s) (intab s) (tabled s) (rq s) (sq s) n (sbuf s) (slots s) (acks s) (srv s).
 Definition set_slots (s : sock) (n : nat) : sock :=
-  mkSock (kd s) (st s) (bound s) (intab s) (tabled s) (rq s) (sq s) (rbuf s) (sbuf s) n (acks s).
+  mkSock (kd s) (st s) (bound s) (intab s) (tabled s) (rq s) (sq s) (rbuf s) (sbuf s) n (acks s) (srv s).
 Definition set_acks (s : sock) (n : nat) : sock :=
-  mkSock (kd s) (st s) (bound s) (intab s) (tabled s) (rq s) (sq s) (rbuf s) (sbuf s) (slots s) n.
+  mkSock (kd s) (st s) (bound s) (intab s) (tabled s) (rq s) (sq s) (rbuf s) (sbuf s) (slots s) n (srv s).
 (* socket.bind(addr) + sap.insert_socket(socket) *)
 Definition set_bind (s : sock) : sock :=
-  mkSock (kd s) (st s) true true true (rq s) (sq s) (rbuf s) (sbuf s) (slots s) (acks s).
+  mkSock (kd s) (st s) true true true (rq s) (sq s) (rbuf s) (sbuf s) (slots s) (acks s) (srv s).
 (* sock_list.pop(); socket.bind(None)   (ServiceAccessPoint.shutdown) *)
 Definition set_popped (s : sock) : sock :=
-  mkSock (kd s) (st s) false false (tabled s) (rq s) (sq s) (rbuf s) (sbuf s) (slots s) (acks s).
+  mkSock (kd s) (st s) false false (tabled s) (rq s) (sq s) (rbuf s) (sbuf s) (slots s) (acks s) (srv s).
 (* sock_list.remove(socket)   (ServiceAccessPoint.remove_socket; the address stays) *)
 Definition set_removed (s : sock) : sock :=
-  mkSock (kd s) (st s) (bound s) false (tabled s) (rq s) (sq s) (rbuf s) (sbuf s) (slots s) (acks s).
+  mkSock (kd s) (st s) (bound s) false (tabled s) (rq s) (sq s) (rbuf s) (sbuf s) (slots s) (acks s) (srv s).
+
+Definition set_srv (s : sock) (b : bool) : sock :=
+  mkSock (kd s) (st s) (bound s) (intab s) (tabled s) (rq s) (sq s) (rbuf s) (sbuf s) (slots s) (acks s) b.
 
 Definition fresh (k : kind) : sock :=
-  mkSock k (match k with DLC => CLOSED | _ => ESTABLISHED end) false false false [] 0 1 1 0 0.
+  mkSock k (match k with DLC => CLOSED | _ => ESTABLISHED end) false false false [] 0 1 1 0 0 false.
 Definition client_sock : sock :=          (* the socket DataLinkConnection.accept() builds, once inserted *)
-  mkSock DLC ESTABLISHED true true true [] 0 1 1 1 0.
-Definition sdp_sock : sock := mkSock SDP ESTABLISHED true true true [] 0 1 1 0 0.
+  mkSock DLC ESTABLISHED true true true [] 0 1 1 1 0 false.
+Definition sdp_sock : sock := mkSock SDP ESTABLISHED true true true [] 0 1 1 0 0 false.
 
 (* errno values *)
 Definition EBADF := 9%Z.      Definition EWOULDBLOCK := 11%Z.  Definition EINVAL := 22%Z.
@@ -320,7 +325,7 @@ Definition seg (v : variant) (p : point) (s : sock) (term : bool) (orc : bool) :
       (* Orig only: insert into the ServiceAccessPoint object read before; if terminate() ran in
          between, that object is no longer in llc.sap and the client is never shut down *)
       match v with
-      | Orig => out s (AAlloc (if term then mkSock DLC ESTABLISHED true false true [] 0 1 1 1 0 else client_sock))
+      | Orig => out s (AAlloc (if term then mkSock DLC ESTABLISHED true false true [] 0 1 1 1 0 false else client_sock))
       | Fixed => out s (ARet (eret EPIPE))       (* not reached: PAcc3 does the insertion under llc.lock *)
       end
   (* ---- llc.connect -> socket.connect --------------------------------------------------------------- *)
@@ -431,7 +436,7 @@ Definition entry (op : opr) : option (nat * point) :=
   end.
 
 Inductive lstate := LRun | LTerm | LClosing (o : nat) | LDone.
-Inductive deqkind := DqData | DqDM | DqOther.
+Inductive deqkind := DqData | DqDM | DqOther | DqFrmr.
 
 Inductive label :=
 | TIssue (t : nat) (op : opr)
@@ -489,7 +494,8 @@ Definition run_seg (g : gstate) (t : nat) (o : nat) (p : point) (orc : bool) : g
   | AGoto q => mkG (var g) sk1 (nsk g) (upd thr1 t (set_ts me (At o q))) (term g) (llc_held g) (lpc g)
   | AWait c q => mkG (var g) sk1 (nsk g) (upd thr1 t (set_ts me (Blocked o c q false))) (term g) (llc_held g) (lpc g)
   | ARet x => mkG (var g) sk1 (nsk g) (upd thr1 t (set_ts me (Done x))) (term g) (llc_held g) (lpc g)
-  | AAlloc s => mkG (var g) (upd sk1 (nsk g) s) (S (nsk g)) (upd thr1 t (set_ts me (Done (Ok (VSock (nsk g))))))
+  | AAlloc s => mkG (var g) (upd sk1 (nsk g) (set_srv s (match mode me with MListen _ => true | _ => false end)))
+                    (S (nsk g)) (upd thr1 t (set_ts me (Done (Ok (VSock (nsk g))))))
                     (term g) (llc_held g) (lpc g)
   end.
 
@@ -557,9 +563,12 @@ Definition step (g : gstate) (l : label) : gstate :=
           | ONew k => mkG (var g) (upd (sk g) (nsk g) (fresh k)) (S (nsk g))
                           (upd (thr g) t (set_ts (thr g t) (Done (Ok (VSock (nsk g)))))) (term g) (llc_held g) (lpc g)
           | OServer ls =>      (* the thread becomes the accept loop of a SNEP / handover server *)
-              if ref_ok g ls PAcc1 then with_thr g (upd (thr g) t (mkThread (At ls PAcc1) (MListen ls))) else g
+              if ref_ok g ls PAcc1 && negb (srv (sk g ls)) then with_thr g (upd (thr g) t (mkThread (At ls PAcc1) (MListen ls))) else g
           | _ => match entry op with
-                 | Some (o, p) => if ref_ok g o p then with_thr g (upd (thr g) t (set_ts (thr g t) (At o p))) else g
+                 | Some (o, p) =>
+                     (* a socket accepted by a server loop is not known to any other thread *)
+                     if ref_ok g o p && negb (srv (sk g o))
+                     then with_thr g (upd (thr g) t (set_ts (thr g t) (At o p))) else g
                  | None => g
                  end
           end
@@ -591,6 +600,10 @@ Definition step (g : gstate) (l : label) : gstate :=
             then on_sock g o (set_rq s (rq s ++ [x])) (wake_one (thr g) o RecvReady w) else g
         | DLC =>
             match st s, x with
+            | ESTABLISHED, IOTHER =>      (* not a connection-mode PDU: send_queue.clear(); append(FRMR) *)
+                on_sock g o (set_sq s 1) (thr g)
+            | _, IOTHER =>                (* ... in any other state: self.close(); append(FRMR) *)
+                on_sock g o (set_sq (tco_close s) 1) (wake_all (thr g) o (close_conds DLC))
             | CLOSED, _ => on_sock g o (set_sq s (S (sq s))) (thr g)
             | LISTEN, ICONNECT =>
                 if Nat.ltb (length (rq s)) (rbuf s)
@@ -619,6 +632,8 @@ Definition step (g : gstate) (l : label) : gstate :=
             then on_sock g o (set_rq s1 (rq s1 ++ [IDISC])) (wake_all (wake_one (thr g) o RecvReady w) o [SendToken])
             else on_sock g o s1 (thr g)
         | DLC, DqOther => on_sock g o s1 (thr g)
+        | DLC, DqFrmr =>      (* dequeue(): the FRMR leaves: state SHUTDOWN, close() *)
+            on_sock g o (tco_close s) (wake_all (thr g) o (close_conds DLC))
         | SDP, _ => on_sock g o s1 (thr g)
         end
       else g
